@@ -31,6 +31,7 @@ type ThreadSpec struct {
 	IP     string `json:"ip,omitempty"`
 	Edns   bool   `json:"edns,omitempty"`
 	ECS    string `json:"ecs,omitempty"` // CIDR or ""
+	EVer   int    `json:"ever,omitempty"` // EDNS version (0 = the supported one)
 	RD     bool   `json:"rd,omitempty"`
 	Sleep  int    `json:"sleep,omitempty"` // history events: milliseconds to wait before the event
 	// reload
@@ -140,6 +141,7 @@ func BuildRequest(t ThreadSpec, id uint16) *dns.Msg {
 		o.Hdr.Name = "."
 		o.Hdr.Rrtype = dns.TypeOPT
 		o.SetUDPSize(4096)
+		o.SetVersion(uint8(t.EVer))
 		if t.ECS != "" {
 			if e, err := dnsserver.MakeOPTWithECS(t.ECS); err == nil {
 				o.Option = append(o.Option, e.Option...)
